@@ -2,6 +2,7 @@ package c38
 
 import (
 	"os"
+	"strings"
 
 	clog "github.com/33cn/chain33/common/log"
 	"github.com/33cn/chain33/queue"
@@ -36,7 +37,12 @@ func fakePeers(q queue.Queue) {
 					msg.Reply(c.NewMessage("", types.EventReplyBlockHeight, &types.ReplyBlockHeight{Height: 1}))
 				case types.EventStoreGet:
 					g := msg.Data.(*types.StoreGet)
-					msg.Reply(c.NewMessage("", types.EventStoreGetReply, &types.StoreReplyValue{Values: make([][]byte, len(g.Keys))}))
+					vals := make([][]byte, len(g.Keys)) // every account asked for exists and is rich, so that transfers can succeed
+					for i, k := range g.Keys {
+						ks := string(k)
+						vals[i] = types.Encode(&types.Account{Addr: ks[strings.LastIndex(ks, "-")+1:], Balance: 1e12})
+					}
+					msg.Reply(c.NewMessage("", types.EventStoreGetReply, &types.StoreReplyValue{Values: vals}))
 				case types.EventGetProperFee:
 					msg.Reply(c.NewMessage("", types.EventReply, &types.ReplyProperFee{ProperFee: 1000000}))
 				case types.EventTx:
